@@ -35,16 +35,16 @@ PROPS = {
         "ModInt reading: integers in the field classes are interpreted through the ring homomorphism Z -> Z/p with a tracked 'reduced' flag (DESIGN section 4 L1)"],
         assumptions=["class invariant: field_modulus is prime (A-PRIME for the four real curves)",
                      "class invariant: the modulus polynomial is irreducible and its integer coefficients are 0 or not multiples of p",
-                     "FQ12.inv (both files) is a BOUNDED stand-in, not proved: run-time monitor on small and real fields",
+                     "FQP.inv: the quotient computed by (optimized_)poly_rounded_div enters only through its contract (length, degree, leading coefficient); the exit fact 'low != 0 unless self = 0' is the Lean lemma Euclid.lean:inv_exit_ne_zero applied to the proved invariants",
                      "FQ.__eq__/__lt__ with an int operand compare the canonical representative with the integer as given (recorded reading, DESIGN section 8 C08)"],
-        text="Every operator of FQ and FQP/FQ2/FQ12 in both files is executed symbolically from the real source with a SYMBOLIC prime and SYMBOLIC modulus coefficients (d = 2 and d = 12) and proved to return a valid (reduced) object of type(self) whose abstract value is the ring operation on the abstract values, with TypeError exactly for rejected operand kinds; multiplication's reduction loop is proved by a loop invariant per iteration under the relation M(W) = 0, ** by a loop invariant over an abstract commutative ring for every n >= 0, FQ2.inv by complete path enumeration, prime_field_inv by a z3 loop invariant with congruence witnesses. Field axioms then follow from the ring being Z/p resp. (Z/p)[W]/(M) (Lean L-ZMOD).",
-        note="FQ12.inv is bounded only (listed under bounded_standins, never in discharged). Primality/irreducibility are class invariants (assumed). Comparison operators with int operands follow the recorded reading.",
+        text="Every operator of FQ and FQP/FQ2/FQ12 in both files is executed symbolically from the real source with a SYMBOLIC prime and SYMBOLIC modulus coefficients (d = 2 and d = 12) and proved to return a valid (reduced) object of type(self) whose abstract value is the ring operation on the abstract values, with TypeError exactly for rejected operand kinds; multiplication's reduction loop is proved by a loop invariant per iteration under the relation M(W) = 0, ** by a loop invariant over an abstract commutative ring for every n >= 0, FQP.inv (the extended Euclid with truncated products) by a loop contract — invariants lm*A = low, hm*A = high modulo M, lm*high - hm*low = +-M exactly, degree bounds that make the truncation exact, a termination measure — instantiated for every degree pair (d = 2 and d = 12, both files; FQ2.inv additionally by complete path enumeration), prime_field_inv by a z3 loop invariant with congruence witnesses. Field axioms then follow from the ring being Z/p resp. (Z/p)[W]/(M) (Lean L-ZMOD).",
+        note="FQ12.inv is proved by the loop contract (the former bounded monitor is kept as an extra run-time cross-check under bounded_standins). Primality/irreducibility are class invariants (assumed). Comparison operators with int operands follow the recorded reading.",
         design_ref="DESIGN.md section 8 C08"),
     "C14": dict(level="proof", trusted=_COMMON_TRUST, assumptions=[
-        "as C08 (same units): primality, irreducibility, FQ12.inv bounded on both sides",
+        "as C08 (same units): primality, irreducibility",
         "operand kinds accepted by only one of the two files (reference FQP * FQ) are outside 'the same expression evaluated in both'"],
         text="Reference and optimized classes are verified against the same abstract contract by the same unit code (C08); the simulation lemma (R-preservation, canonical representatives equal) then gives equal values for every expression tree; sgn0 of the optimized classes is proved equal to the RFC 9380 section 4.1 definition for all elements (z3).",
-        note="Same assumptions as C08; FQ12.inv compared by the bounded monitor only.",
+        note="Same assumptions as C08.",
         design_ref="DESIGN.md section 8 C14"),
     "C20": dict(level="proof", trusted=["CPython semantics (DESIGN section 3): static name resolution, no monkey-patching, no __setattr__/__getattr__ hooks",
                                         "C-implemented callees (hashlib, hmac, int/bytes/list builtins) have their documented effects",
@@ -68,10 +68,10 @@ PROPS = {
         design_ref="DESIGN.md section 8 C16"),
     "C11": dict(level="proof", trusted=_COMMON_TRUST + ["contracts of optimized_curve.is_inf / normalize / is_on_curve (proved generically under C13) are used at their call sites"],
         assumptions=["A-PRIME: q prime", "L-SQRT34 and sq_eq_sq_cases (Lean) for G1 round-trip completeness",
-                     "L-SQRT8: modular_squareroot_in_FQ2(Y^2) = +-Y — assumed (Lean core in Roots.lean), needed only for G2 round-trip completeness",
+                     "modular_squareroot_in_FQ2(Y^2) = +-Y is proved from the source (unit codec.sqrt_FQ2) from two lemma instances — (Y^2)^((q^2-1)/8) is a fourth root of unity (Lean Roots.lean check_is_fourth_root) and the exponent identity 2*((q^2+7)/16) = 1 + (q^2-1)/8 (closed fact) — and the table facts of codec.eighth-roots; F_q2 = F_q[u]/(u^2+1) being a field is the class invariant of C08",
                      "closed facts (eval): no point of E or E' has y = 0, no point of E' has x = 0"],
         text="For EVERY 384-bit word (pair of words) decompress_G1/G2 are proved to either raise ValueError or return a reduced on-curve point with z = 1 whose compression is exactly the input (soundness + canonicity, without trusting the square-root routines: their results are havocked and the code's own a-posteriori checks carry the proof), and to refuse exactly the malformed words; compress_G1/G2 are proved to produce the ZCash layout (flags in bits 383/382/381, sign = larger y, imaginary part first); round-trip completeness is proved from the square-root lemmas; the byte helpers give 48/96-byte big-endian strings.",
-        note="Known finding D2 (x = 0 on G1) is excluded from the completeness obligation and re-executed concretely on every run. G2 completeness rests on the assumed lemma L-SQRT8.",
+        note="Known finding D2 (x = 0 on G1) is excluded from the completeness obligation and re-executed concretely on every run. G2 completeness uses the contract of modular_squareroot_in_FQ2 proved by unit codec.sqrt_FQ2.",
         design_ref="DESIGN.md section 8 C11"),
     "C19": dict(level="proof", trusted=_COMMON_TRUST + ["contracts of jacobian_multiply / jacobian_add / from_jacobian / inv (proved under C18) are used at their call sites"],
         assumptions=["A-PRIME: P and N prime", "A-ORDER(secp256k1): #E = N (forced by Hasse's theorem + N prime + N.G = O: closed facts), so every point has order dividing N",
